@@ -732,9 +732,10 @@ func (runInfo *runInfoStruct) runReturnStmt(stmt *ast.ReturnStmt) {
 	runInfo.rv = reflect.ValueOf(rvs)
 }
 
-// detachValue copies an addressable value of a basic kind (a number, string or bool read from an element
-// of a typed slice, a struct field or another variable, or an interface slot of a list) so that what an
-// assignment holds or binds no longer changes with the place it was read from.
+// detachValue copies an addressable value (a number, string, bool, or the header of a slice, map, pointer,
+// function or channel, read from an element of a typed slice, a struct field or another variable, or an
+// interface slot of a list) so that what an assignment holds or binds no longer changes with the place it
+// was read from. Struct and array values keep their sharing.
 func detachValue(rv reflect.Value) reflect.Value {
 	if !rv.IsValid() || !rv.CanAddr() {
 		return rv
@@ -743,7 +744,10 @@ func detachValue(rv reflect.Value) reflect.Value {
 	case reflect.Bool, reflect.String, reflect.Interface,
 		reflect.Int, reflect.Int8, reflect.Int16, reflect.Int32, reflect.Int64,
 		reflect.Uint, reflect.Uint8, reflect.Uint16, reflect.Uint32, reflect.Uint64, reflect.Uintptr,
-		reflect.Float32, reflect.Float64, reflect.Complex64, reflect.Complex128:
+		reflect.Float32, reflect.Float64, reflect.Complex64, reflect.Complex128,
+		// a slice, map, pointer, function or channel read from a typed slot is a reference to what the slot referred
+		// to at that moment (its header is copied), not to the slot
+		reflect.Slice, reflect.Map, reflect.Ptr, reflect.Func, reflect.Chan:
 		nv := reflect.New(rv.Type()).Elem()
 		nv.Set(rv)
 		return nv
